@@ -138,7 +138,7 @@ def one_text(job):
     # loads in the runtime + every reference resolves exactly (real audit hook)
     try:
         r = subprocess.run([common.rt_bin(), "audit", dst], capture_output=True, text=True, timeout=60)
-        rows = common.parse_json_lines(r.stdout.splitlines())
+        rows = common.parse_json_lines(r.stdout.split("\n"))
     except subprocess.TimeoutExpired:
         rows = [{"t": "timeout"}]
     bad_real = []
@@ -159,7 +159,7 @@ def one_text(job):
         # tie: the model's checker on the same document
         try:
             r = subprocess.run([common.INKMODEL, "refcheck", dst], capture_output=True, text=True, timeout=60)
-            mr = common.parse_json_lines(r.stdout.splitlines())
+            mr = common.parse_json_lines(r.stdout.split("\n"))
         except subprocess.TimeoutExpired:
             mr = []
         if not mr or mr[0].get("t") != "refcheck":
